@@ -50,6 +50,10 @@ impl<'a> WireFormat<'a> for IPSECKEY<'a> {
     where
         Self: Sized,
     {
+        if *position + 3 > data.len() {
+            return Err(crate::SimpleDnsError::InsufficientData);
+        }
+
         let precedence = data[*position];
         *position += 1;
         let gateway_type = data[*position];
